@@ -28,6 +28,7 @@ FML = "statime/src/bmc/foreign_master.rs"
 # (name, file, old, new, expect) — expect: "break" or "hold"
 MUTANTS = [
     ("unchanged", CMP, "", "", "hold"),
+    ("nothing recognised (every source file empty): every table degrades, every theorem still proves", "*", "", "", "degrade"),
     ("chain: priority2 before variance", CMP,
      ".then_with(|| self_quality.offset_scaled_log_variance.cmp(&other_quality.offset_scaled_log_variance))\n            .then_with(|| self.gm_priority_2.cmp(&other.gm_priority_2))",
      ".then_with(|| self.gm_priority_2.cmp(&other.gm_priority_2))\n            .then_with(|| self_quality.offset_scaled_log_variance.cmp(&other_quality.offset_scaled_log_variance))", "break"),
@@ -159,6 +160,8 @@ def main():
     try:
         for i, (name, rel, old, new, expect) in enumerate(MUTANTS):
             def read(r, rel=rel, old=old, new=new):
+                if rel == "*":
+                    return ""
                 try:
                     t = open(os.path.join(REPO, r)).read()
                 except FileNotFoundError:
@@ -177,7 +180,7 @@ def main():
                     "\nnamespace Statime.C11\nopen Statime\n" + sec11 + "\nend Statime.C11\n" +
                     "\nnamespace Statime.C10\nopen Statime\n" + sec10 + "\nend Statime.C10\n" +
                     "\nnamespace Statime.C08\nopen Statime\n" + sec08 + "\nend Statime.C08\n" +
-                    "\nnamespace Statime.C06\nopen Statime\n" + sec06 + "\nend Statime.C06\n" + (COMPLETE if not old else ""))
+                    "\nnamespace Statime.C06\nopen Statime\n" + sec06 + "\nend Statime.C06\n" + (COMPLETE if not old and rel != "*" else ""))
             path = os.path.join(tmp, f"m{i}.lean")
             open(path, "w").write(lean)
             r = subprocess.run(["lake", "env", "lean", path], cwd=LEAN, capture_output=True, text=True)
